@@ -17,7 +17,8 @@ LEVEL_TEXT = ('Lean 4 theorems, for all input fields/offsets, samplings, tilt sh
               'shape/prop_shape/mask only select samples; oversampling only divides alpha and multiplies the grid; wavelength, focal length, '
               'du/oversample and the flipped plane type are carried. The integer/fractional split of the shift is derived: the model takes the real '
               'shift, splits it with trunc (np.fix) and fix_split_spec proves |sub| < 1, sub has the sign of the shift and fix+sub = shift, '
-              'propagateField_sample_shift states the sample formula in terms of the shift itself. The mask box is computed by the model from the mask '
+              'propagateField_sample_shift states the sample formula in terms of the shift itself, and propagateDft_sample_of_shifts / call_sample_of_shifts lift it to the whole '
+              'wavefront and to the call as written: the input is a list of (field, real shift), every window is centred at trunc(shift) — no free split parameter is left. The mask box is computed by the model from the mask '
               'values with C20\'s boundary (mask_extent_is_support_bbox: it is the bounding box of the non-zero samples). Window arithmetic, '
               '_dft_alpha, its call site, shape·oversample, the metadata hand-over and every argument of the dft2 call and of the output Field are '
               'regenerated from propagate.py/extent.py/field.py on every run (boundary from util.py). The model\'s split and mask box are compared with '
@@ -41,11 +42,13 @@ RULE = ('cases: pupils 1..6 x 1..6 (even/odd/non-square, off-centre support, 1..
         'image->pupil direction (second propagation of a propagated wavefront); distinct = (direction, pupil shape, offsets, os, '
         'shape, prop_shape, mask box, tilt class); non-trivial = window clipped / mask / tilt / per-axis sampling / offset field'
         ' Extremes stream (5% of quick, 240 cases in search/thorough): every length scaled by 1e-9..1e3, per-axis pixel scales differing by a relative 1e-5..5e-3 only, large (64..100) critically sampled pupils with an odd dimension (oracle only).')
-TRUSTED = ['np.dot(E1.dot(f), E2), np.exp, np.outer, np.fix, np.broadcast_to as modelled in Model/Fourier.lean and Model/Propagate.lean',
+TRUSTED = ['Field.shift (the real-valued shift of a field, in output samples) as proved in C04; lentil.boundary = C20 model boundary∘gtMask (boundary_is_bbox)',
+           'np.dot(E1.dot(f), E2), np.exp, np.outer, np.fix, np.broadcast_to as modelled in Model/Fourier.lean and Model/Propagate.lean',
            'lentil.fourier.dft2 = Model dft2 (checked by C01); lentil.field.insert = Model insertArr (checked by C06)']
 UNPROVEN = ['np.fix on IEEE doubles = TruncLike.trunc: class operation, tied differentially (splits of every case + adversarial probe)',
             'np.broadcast_to(x, (2,)) for an int or a pair: NumPy contract (ShapeArg.bcast2)']
-ASSUMPTIONS = ['shape >= 1, prop_shape >= 1; the wavefront has passed through a plane (wavefront.shape is a pair)',
+ASSUMPTIONS = ['oversample is an integer >= 1 (the docstring says float; a non-integer oversample gives float shapes and fails downstream: not supported by propagate_dft, not generated)',
+               'shape >= 1, prop_shape >= 1; the wavefront has passed through a plane (wavefront.shape is a pair)',
                'a mask whose shape differs from shape*oversample in one or both dimensions must be refused with ValueError (oracle; corpus case mask-8x10-for-8x8-output)',
                'a mask without support must be refused: ValueError or NumPy\'s IndexError are both accepted as the refusal',
                'generated tilt shifts keep a fractional part in [0.05,0.95] so that np.fix is insensitive to rounding (the truncation probe covers the rest)']
